@@ -97,11 +97,15 @@ class Executor:
             raise Unsupported("call depth > 60")
         self.frames.append(fr)
         try:
+            result = None
             try:
                 self.exec_block(node.body, fr)
             except _Return as r:
-                return r.value
-            return None
+                result = r.value
+            hook = getattr(self.reg, "post_hooks", {}).get(finfo.qualname)
+            if hook is not None:
+                hook(self, fr, result)
+            return result
         finally:
             self.last_env = fr.env
             self.frames.pop()
@@ -312,10 +316,16 @@ class Executor:
 
     # -- loops
     def loop_contract(self, s, fr):
-        if not fr.verifying or fr.contract is None:
+        if fr.finfo is None:
             return None
         ordn = fr.finfo.loops.get(id(s))
-        return fr.contract.loops.get(ordn), ordn
+        if fr.verifying and fr.contract is not None:
+            return fr.contract.loops.get(ordn), ordn
+        # an inlined callee: its loop contracts come from the registry (same sidecar contract object)
+        c = self.reg.contracts.get(fr.finfo.qualname)
+        if c is not None and c.loops.get(ordn) is not None:
+            return c.loops.get(ordn), ordn
+        return None
 
     def st_While(self, s, fr):
         lc = self.loop_contract(s, fr)
@@ -567,6 +577,19 @@ class Executor:
 
     def ex_Call(self, e, fr):
         # Python order: callee (incl. receiver) first, then positional, then keyword arguments
+        if isinstance(e.func, ast.Name) and e.func.id == "implies" and len(e.args) == 2 and \
+                getattr(fr, "spec_ok", False) and "implies" not in fr.env:
+            a = self.truth(self.eval(e.args[0], fr), fr)  # lazy: the consequent is not evaluated when a is false
+            if a is False:
+                return True
+            b = self.truth(self.eval(e.args[1], fr), fr)
+            if a is True:
+                return b
+            if b is True:
+                return True
+            if b is False:
+                return self.not_(a)
+            return mk_bool(z3.Implies(zbool(a), zbool(b)))
         recv = f = None
         is_super = False
         if isinstance(e.func, ast.Attribute):
